@@ -44,6 +44,10 @@ pub struct Allow {
     pub waiter: Option<usize>,
     /// a notify_one found several waiters and none of them was the designated one
     pub waiter_mismatch: bool,
+    /// when set, only these library threads may run (and `lib` must be true as well)
+    pub libset: Option<std::collections::HashSet<usize>>,
+    /// the designated waiter also decides notify_one on library-internal condvars
+    pub lib_waiter: bool,
 }
 
 pub struct AllowSched {
@@ -60,7 +64,7 @@ impl Scheduler for AllowSched {
     fn choose_opt(&mut self, menu: &[Opt]) -> Option<usize> {
         let mut a = self.allow.lock().unwrap();
         if menu[0].kind == OptKind::Waiter {
-            if menu.iter().all(|o| o.lib) {
+            if menu.iter().all(|o| o.lib) && !a.lib_waiter {
                 // library-internal condvar (the worker pool): any waiter will do
                 return Some(0);
             }
@@ -73,7 +77,11 @@ impl Scheduler for AllowSched {
             return Some(0);
         }
         for (i, o) in menu.iter().enumerate() {
-            let ok = if o.lib { a.lib } else { a.env.contains(&o.tid) };
+            let ok = if o.lib {
+                a.lib && a.libset.as_ref().map_or(true, |s| s.contains(&o.tid))
+            } else {
+                a.env.contains(&o.tid)
+            };
             // timers of environment threads are fired by explicit directives only
             if ok && (o.kind == OptKind::Run || o.lib) {
                 return Some(i);
